@@ -606,42 +606,47 @@ impl Relations {
 
     /// Insert a new entry at the given index
     pub fn insert(&mut self, idx: usize, entry: Entry) {
-        let is_empty = !self.0.children_with_tokens().any(|n| n.kind() == COMMA);
+        let new_entry: NodeOrToken<GreenNode, GreenToken> = entry.0.green().into_owned().into();
+        let comma = || NodeOrToken::Token(GreenToken::new(COMMA.into(), ","));
+        let space = || NodeOrToken::Token(GreenToken::new(WHITESPACE.into(), " "));
         let (position, new_children) = if let Some(current_entry) = self.entries().nth(idx) {
-            let to_insert: Vec<NodeOrToken<GreenNode, GreenToken>> = if idx == 0 && is_empty {
-                vec![entry.0.green().into()]
-            } else {
-                vec![
-                    entry.0.green().into(),
-                    NodeOrToken::Token(GreenToken::new(COMMA.into(), ",")),
-                    NodeOrToken::Token(GreenToken::new(WHITESPACE.into(), " ")),
-                ]
-            };
-
-            (current_entry.0.index(), to_insert)
+            // before an existing entry: the new entry brings its separator along
+            (current_entry.0.index(), vec![new_entry, comma(), space()])
         } else {
-            let child_count = self.0.children_with_tokens().count();
-            (
-                child_count,
-                if idx == 0 {
-                    vec![entry.0.green().into()]
-                } else {
-                    vec![
-                        NodeOrToken::Token(GreenToken::new(COMMA.into(), ",")),
-                        NodeOrToken::Token(GreenToken::new(WHITESPACE.into(), " ")),
-                        entry.0.green().into(),
-                    ]
-                },
-            )
+            // at the end: after the last entry or substvar, if there is one
+            let last_item = self
+                .0
+                .children()
+                .filter(|n| n.kind() == ENTRY || n.kind() == SUBSTVAR)
+                .last();
+            match last_item {
+                None => (self.0.children_with_tokens().count(), vec![new_entry]),
+                Some(last) => {
+                    let trailing_comma = last
+                        .siblings_with_tokens(Direction::Next)
+                        .skip(1)
+                        .any(|n| n.kind() == COMMA);
+                    if trailing_comma {
+                        // "a," / "a, ": reuse the separator that is already there
+                        let ends_with_space = matches!(
+                            self.0.last_child_or_token().map(|n| n.kind()),
+                            Some(WHITESPACE) | Some(NEWLINE)
+                        );
+                        let end = self.0.children_with_tokens().count();
+                        if ends_with_space {
+                            (end, vec![new_entry])
+                        } else {
+                            (end, vec![space(), new_entry])
+                        }
+                    } else {
+                        (last.index() + 1, vec![comma(), space(), new_entry])
+                    }
+                }
+            }
         };
-        // We can safely replace the root here since Relations is a root node
-        self.0 = SyntaxNode::new_root_mut(
-            self.0.replace_with(
-                self.0
-                    .green()
-                    .splice_children(position..position, new_children),
-            ),
-        );
+        // edit the tree in place: handles to other entries stay valid
+        self.0
+            .splice_children(position..position, detached(new_children));
     }
 
     /// Replace the entry at the given index
@@ -1042,6 +1047,13 @@ fn inject(builder: &mut GreenNodeBuilder, node: SyntaxNode) {
         }
     }
     builder.finish_node();
+}
+
+/// Turn green children into detached syntax elements of a mutable tree, ready to be spliced
+/// into another mutable tree with `splice_children`.
+fn detached(children: Vec<NodeOrToken<GreenNode, GreenToken>>) -> Vec<SyntaxElement> {
+    let tmp = SyntaxNode::new_root_mut(GreenNode::new(ROOT.into(), children));
+    tmp.children_with_tokens().collect()
 }
 
 impl From<Vec<Relation>> for Entry {
